@@ -124,6 +124,13 @@ theorem C17_getattr_module_first_loses :
     resolveIn (getattrGlobsWith ["module", "fixed"] [("super", moduleObj "super")]) "super" = moduleObj "super" ∧
     resolveIn (getattrGlobs [("super", moduleObj "super")]) "super" = ⟨.builtin, "super"⟩ := by decide
 
+/-- **C17_no_extra_bindings**: `_eval_snippets` puts nothing into the globals of the generated methods
+    besides the module namespace and the helper dicts of the scripts (read from the source by T1): no
+    binding under a computed name — the class's own name, say — that could land on a helper name.
+    The class's name is therefore no input of the model: `C17_table_is_intended` holds for every
+    class whatever it is called. -/
+theorem C17_no_extra_bindings : Generated.c17EvalExtraBindings = [] := by decide
+
 /-- **C17_module_irrelevant**: the same class specification defined in modules that pre-bind
     different sets of names resolves every load identically. -/
 theorem C17_module_irrelevant (c : Case) (p : Poison) : table { c with poison := p } = table c := by
